@@ -61,6 +61,7 @@ func init() {
 		Shards: func(tier string, seed int64) []Shard {
 			sh := yearShardsWith(tier, seed, 9998, "days", cycleYears())
 			sh = append(sh, Shard{Kind: "seconds", Tier: tier, Seed: seed})
+			sh = append(sh, Shard{Kind: "pairs", Tier: tier, Seed: seed})
 			return sh
 		},
 		Run: runC04,
@@ -73,9 +74,61 @@ func init() {
 
 var tsub = []float64{-0.6, -0.51, -0.4, -0.001, 0, 0.001, 0.4, 0.49}
 
+// runC04Pairs: differences asked back to back whose year pairs are related bit-wise: (f, t) directly after
+// (f xor b, t +- 2^k) for b in {0,1,2,3} and k = 6..13. Each answer is compared with the reference, so whatever the
+// first question leaves behind (a one-entry memo with a packed or truncated key) must not change the second.
+func runC04Pairs(w *W) {
+	type ymd struct{ y, m, d int }
+	ask := func(a, b ymd, ctx string) {
+		if a.y < 1 || a.y > 9998 || b.y < 1 || b.y > 9998 || !r1Valid(a.y, a.m, a.d) || !r1Valid(b.y, b.m, b.d) {
+			return
+		}
+		want := r1JDN(b.y, b.m, b.d) - r1JDN(a.y, a.m, a.d)
+		var g1, g2, g3 int
+		if msg, p := try(func() {
+			sa, sb := calendar.NewSolarFromYmd(a.y, a.m, a.d), calendar.NewSolarFromYmd(b.y, b.m, b.d)
+			g1 = SolarUtil.GetDaysBetween(a.y, a.m, a.d, b.y, b.m, b.d)
+			g2 = sb.Subtract(sa)
+			g3 = sb.SubtractMinute(sa)
+		}); p {
+			w.Viol("C04:pairs:panic", fmt.Sprintf("difference %v..%v panicked %s: %s", a, b, ctx, msg), ctx)
+			return
+		}
+		w.R.Evals += 3
+		w.R.Transitions++
+		if g1 != want || g2 != want || g3 != want*1440 {
+			w.Viol(fmt.Sprintf("C04:pairs:%04d-%04d", a.y, b.y), fmt.Sprintf("%04d-%02d-%02d..%04d-%02d-%02d asked %s: GetDaysBetween=%d Subtract=%d SubtractMinute=%d, day count says %d", a.y, a.m, a.d, b.y, b.m, b.d, ctx, g1, g2, g3, want), ctx)
+		}
+	}
+	for _, f := range []int{1, 2, 100, 301, 1583, 1806, 2023, 2024} {
+		for _, gap := range []int{0, 1, 7, 223, 507, 1000} {
+			t := f + gap
+			a, b := ymd{f, 3, 1}, ymd{t, 6, 15}
+			for _, bit := range []int{0, 1, 2, 3} {
+				for k := 6; k <= 13; k++ {
+					for _, sg := range []int{1, -1} {
+						a2, b2 := ymd{f ^ bit, 3, 1}, ymd{t + sg*(1<<k), 6, 15}
+						ctx := fmt.Sprintf("directly after %04d..%04d", a2.y, b2.y)
+						ask(a2, b2, "first")
+						ask(a, b, ctx)
+						ask(b2, a2, "first (reversed)")
+						ask(b, a, ctx+" (reversed)")
+						w.R.States++
+						w.R.Nontrivial++
+					}
+				}
+			}
+		}
+	}
+}
+
 func runC04(w *W) {
 	if w.Shard.Kind == "seconds" {
 		runC04Seconds(w)
+		return
+	}
+	if w.Shard.Kind == "pairs" {
+		runC04Pairs(w)
 		return
 	}
 	steps := dayStepsQuick
